@@ -181,11 +181,15 @@ finding("C13-span-in-foreign-source", "C13", [],
  "`... | filter 1 + 2 | take 3 4` returns `internal compiler error; tracked at https://github.com/PRQL/prql/issues/4317` with span source_id 0 (std.prql), start 2411: the span does not lie in the named source, and location/display are absent.",
  None)
 
-def panic_finding(slug, file, prefix, example, stage, extra=""):
+def panic_finding(slug, file, prefix, example, stage, extra="", input_kind=None, input_contains=None):
     fid = "C12-panic-" + slug
+    narrow = ""
+    if input_kind: narrow += f", input kind {input_kind}"
+    if input_contains: narrow += f", input contains {input_contains!r}"
     FINDINGS.append({"id": fid, "property": "C12", "also_seen_by": [], "status": "open",
-        "signature": f"panic raised in {file} whose message starts with {prefix!r} (matched on file and message prefix, not on the line)",
+        "signature": f"panic raised in {file} whose message starts with {prefix!r} (matched on file and message prefix, not on the line){narrow}",
         "panic_file": file, "panic_message_prefix": prefix,
+        **({"input_kind": input_kind} if input_kind else {}), **({"input_contains": input_contains} if input_contains else {}),
         "description": f"{stage} panics instead of returning an error. {extra}".strip(),
         "example": example})
 
@@ -236,10 +240,10 @@ panic_finding("ident-unwrap", "prqlc-parser/src/parser/pr/ident.rs", "called `Op
  "PL JSON with an empty Ident path: {\"Ident\": []}", "json::to_pl")
 panic_finding("lowering-unwrap", "prqlc/src/semantic/lowering.rs", "called `Option::unwrap()` on a `None` value",
  "from [{id = 1, k = 5, k = -5}, {id = 4, k = -5}] | select {id}", "compile / pl_to_rq",
- "a relation literal whose row repeats a field name (found by the libFuzzer target src_stages).")
+ "a relation literal whose row repeats a field name (found by the libFuzzer target src_stages).", input_kind="source", input_contains="[")
 panic_finding("transforms-unwrap", "prqlc/src/semantic/resolver/transforms.rs", "called `Option::unwrap()` on a `None` value",
  "PL JSON of `let distinct = rel -> (from t = _param.rel | group {t.*} (take 1))` with a span edited", "pl_to_rq on a PL JSON document",
- "found by the libFuzzer target json_pl.")
+ "found by the libFuzzer target json_pl.", input_kind="pl-json")
 panic_finding("codegen-ast-unwrap", "prqlc/src/codegen/ast.rs", "called `Option::unwrap()` on a `None` value",
  "PL JSON mutated so that a node the formatter unwraps is missing", "pl_to_prql on PL JSON")
 for kind, what, nmin in [("pipeline", "a pipeline of N `| derive {x = 1}` steps", 1024), ("add", "`1 + 1 + ... + 1` with N terms", 1024), ("lets", "a chain of N let-tables each reading the previous one", 4096), ("fstr", "an f-string with N interpolations", 16384)]:
